@@ -67,7 +67,7 @@ def tokenize(s):
     return out
 
 
-INT = {"i64": ("s", 64), "u64": ("u", 64), "usize": ("u", 64)}
+INT = {"i64": ("s", 64), "u64": ("u", 64), "usize": ("u", 64), "i32": ("s", 32)}
 ENUMS = {"Sign": {"Sign::Signed": 1, "Sign::Unsigned": 0}, "Endianness": {"Endianness::LE": 0, "Endianness::BE": 1}}
 ERRS = {"GenApiError::invalid_data": 33}      # error class numbers of the harnesses (rust/h_genapi, model/RegCodec.v)
 CONSTS = {"i64::MIN": ("(- 2 ^ 63)", "i64"), "i64::MAX": ("(2 ^ 63 - 1)", "i64")}
@@ -299,6 +299,11 @@ class Gen:
             return self.is_untyped_lit(e[2]) and self.is_untyped_lit(e[3])
         return False
 
+    def mentions_guessed(self, e, env):
+        if e[0] == "id":
+            return e[1] in env and len(env[e[1]]) > 2 and env[e[1]][2]
+        return any(self.mentions_guessed(x, env) for x in e[1:] if isinstance(x, tuple) and x and isinstance(x[0], str))
+
     def int_ops(self, ty):
         if ty not in INT:
             raise ShapeError("integer operation at type %r" % (ty,))
@@ -353,7 +358,11 @@ class Gen:
                 code = "let? %s := %s in %s" % (n_, p[0], code)
             return (code, ("tuple", [p[1] for p in parts]))
         if k == "as":
-            src = self.expr(e[1], env, None if not self.is_untyped_lit(e[1]) else e[2])
+            # the operand of a cast gets no type from the cast: an integer literal that nothing else constrains is an
+            # i32 (rustc's fallback), e.g. `(1 << n) as i64` shifts an i32
+            if self.mentions_guessed(e[1], env):
+                raise ShapeError("cast of a value whose type the translator only guessed")
+            src = self.expr(e[1], env, None if not self.is_untyped_lit(e[1]) else "i32")
             sty, dty = src[1], e[2]
             (ss, sw_), (ds, dw) = self.int_ops(sty), self.int_ops(dty)
             x = self.fresh()
@@ -552,7 +561,7 @@ class Gen:
                     w_ = self.ret           # see the module comment: an unconstrained literal-headed let takes the
                                             # type of the function's value; every later use is checked against it
                 v = self.expr(ex, env, w_)
-                env[pat] = (pat, v[1])
+                env[pat] = (pat, v[1], w_ is not None)
                 rest = go(i + 1)
                 return ("let? %s := %s in %s" % (pat, v[0], rest[0]), rest[1])
             if st[0] == "expr":
